@@ -259,3 +259,14 @@ def clause_raw_entry_compares_keys(r, mir):
             if not ok:
                 r.violate(key, f"{f.key}: the match closure of a raw-entry lookup by hash does not return exactly the comparison of the two keys: names with colliding hash tags are merged, and since the hash seed is random per map the outcome differs between rewriters, threads and runs", f.loc())
     return n
+
+
+def clause_directive_after_token(r, mir):
+    """Dispatcher::handle_tag decides the next parser mode only after the token was produced: the one-shot
+    NEXT_START_TAG / NEXT_END_TAG flags are cleared while producing it"""
+    f = mir.fn("Dispatcher::handle_tag[LexemeSink]")
+    tp = [bi for bi, t in f.calls(r"Dispatcher::try_produce_token_from_lexeme$")]
+    gd = [bi for bi, t in f.calls(r"Dispatcher::get_next_parser_directive$")]
+    r.inst("handle_tag|directive-after-token", sample={"try_produce": len(tp), "get_next_parser_directive": len(gd)})
+    if len(tp) != 1 or len(gd) != 1 or not f.dominates(tp[0], gd[0]):
+        r.violate("handle_tag|directive-after-token", "Dispatcher::handle_tag asks for the next parser directive before the token was produced: the one-shot capture flag is still set at that point, so the parser stays in lexer mode for one more tag and buffers the next (unselected) tag or comment whole — held back, and charged to the memory limit, although no handler wants it", f.loc())
